@@ -82,9 +82,21 @@ pub struct StepObs {
     fees_cleared: bool,
     claim_out: bool,
     claim_sec: bool,
+    fee_corner: bool,
 }
 
-fn processor_step_conserves<T, const D: u8>(kind: StepKind) -> StepObs
+/// How the fee step treats the rounding corner described at `fee_credit_rounding_region`.
+#[derive(Clone, Copy, PartialEq, Eq)]
+pub enum FeeCorner {
+    /// assert exact conservation outside the corner and the bound on the excess credit inside it
+    Exclude,
+    /// assert exact conservation everywhere (steps that cannot reach the corner)
+    Strict,
+    /// known-finding witness: assume the corner and assert the strict clause (exact conservation) in it
+    StrictInside,
+}
+
+fn processor_step_conserves<T, const D: u8>(kind: StepKind, corner: FeeCorner) -> StepObs
 where
     T: FixedPointOps<D> + CheckedSub + Copy + kani::Arbitrary + Into<u32> + num_traits::Bounded,
     T::Signed: Num + Copy + kani::Arbitrary + Into<i32>,
@@ -155,6 +167,30 @@ where
     obs.claim_out = w(*res.for_user.output_token_amount()) > 0;
     obs.claim_sec = w(*res.for_user.secondary_output_token_amount()) > 0;
 
+    // Fee step, rounding corner (inherited from GMX `payForCost`): output + collateral do not cover the
+    // fee, the unpaid rest converts to ZERO whole secondary tokens (floor at the price ratio), the cost
+    // is then treated as settled and pool + fee receiver are credited with the NOMINAL fee although
+    // less was paid. `fee_credit_rounding_region` is exactly that situation.
+    let paid_in_collateral_token =
+        (w(output) - w(res.output_amount)) + (w(collateral) - w(res.remaining_collateral_amount));
+    let nominal_fee = w(*fees_before.order_fees().fee_amounts().fee_amount_for_pool())
+        + w(*fees_before.order_fees().fee_amounts().fee_amount_for_receiver());
+    let out_min = w(prices.collateral_token_price(out_long).min);
+    let pnl_min = w(prices.collateral_token_price(pnl_long).min);
+    let fee_credit_rounding_region = kind == StepKind::Fees
+        && res.insolvent_close_step.is_none()
+        && res.secondary_output_amount == secondary
+        && paid_in_collateral_token < nominal_fee
+        && w(*m.claimable_fee.side(out_long)) - w(*before.claimable_fee.side(out_long))
+            == w(*fees_before.order_fees().fee_amounts().fee_amount_for_receiver())
+        && w(*m.liquidity.side(out_long)) - w(*before.liquidity.side(out_long))
+            == w(*fees_before.order_fees().fee_amounts().fee_amount_for_pool());
+    obs.fee_corner = fee_credit_rounding_region;
+    if corner == FeeCorner::StrictInside {
+        // everything outside the keyed region is the hold harness's business
+        kani::assume(fee_credit_rounding_region);
+    }
+
     let z = T::zero();
     let mut token_long = true;
     let mut k = 0;
@@ -179,6 +215,17 @@ where
             let kept = h0 - h1;
             assert!(kept >= 0);
             kept_back_total = kept;
+        } else if fee_credit_rounding_region && corner == FeeCorner::Exclude {
+            if out_long == token_long {
+                // holdings of the collateral token grow by the unpaid rest, which is worth less than
+                // one whole secondary token and was only reachable with output and collateral exhausted
+                let excess = h1 - h0;
+                assert!(excess == nominal_fee - paid_in_collateral_token);
+                assert!(excess > 0 && excess * out_min < pnl_min);
+                assert!(res.output_amount.is_zero() && res.remaining_collateral_amount.is_zero());
+            } else {
+                assert!(h1 == h0);
+            }
         } else {
             assert!(h1 == h0);
         }
@@ -243,7 +290,7 @@ where
 //@ stubs=none; hook: decrease_position::verif_hooks::verif_process (runs the named step of the real processor from given intermediate amounts)
 #[kani::proof]
 fn c08_processor_add_pnl_conserves_u8() {
-    let o = processor_step_conserves::<u8, 1>(StepKind::AddPnl);
+    let o = processor_step_conserves::<u8, 1>(StepKind::AddPnl, FeeCorner::Strict);
     kani::cover!(o.to_output, "profit paid in the collateral token");
     kani::cover!(o.to_secondary, "profit paid in the pnl token");
 }
@@ -254,7 +301,7 @@ fn c08_processor_add_pnl_conserves_u8() {
 //@ stubs=none; hook: verif_process
 #[kani::proof]
 fn c08_processor_add_impact_conserves_u8() {
-    let o = processor_step_conserves::<u8, 1>(StepKind::AddImpact);
+    let o = processor_step_conserves::<u8, 1>(StepKind::AddImpact, FeeCorner::Strict);
     kani::cover!(o.to_output, "impact paid in the collateral token");
     kani::cover!(o.to_secondary, "impact paid in the pnl token");
 }
@@ -265,7 +312,7 @@ fn c08_processor_add_impact_conserves_u8() {
 //@ stubs=none; hook: verif_process; the market records on_insufficient_funding_fee_payment calls
 #[kani::proof]
 fn c08_processor_funding_conserves_u8() {
-    let o = processor_step_conserves::<u8, 1>(StepKind::Funding);
+    let o = processor_step_conserves::<u8, 1>(StepKind::Funding, FeeCorner::Strict);
     kani::cover!(o.funding_full, "funding fully collected");
     kani::cover!(o.funding_shortfall_reported, "shortfall covered by the secondary token and reported");
     kani::cover!(o.insolvent, "insolvent close at the funding step");
@@ -277,7 +324,7 @@ fn c08_processor_funding_conserves_u8() {
 //@ stubs=none; hook: verif_process
 #[kani::proof]
 fn c08_processor_pay_pnl_conserves_u8() {
-    let o = processor_step_conserves::<u8, 1>(StepKind::PayPnl);
+    let o = processor_step_conserves::<u8, 1>(StepKind::PayPnl, FeeCorner::Strict);
     kani::cover!(o.from_collateral, "loss taken from collateral");
     kani::cover!(o.from_secondary, "loss taken from the secondary output");
     kani::cover!(o.insolvent, "insolvent close");
@@ -285,13 +332,23 @@ fn c08_processor_pay_pnl_conserves_u8() {
 
 //@ prop=C08 tier=quick kind=hold
 //@ enc=CollateralProcessor::process, Context::pay_for_fees_excluding_funding, State::do_pay_for_cost, FeeParams::base_position_fees, PositionFees::{for_pool,for_receiver,total_cost_excluding_funding,clear_fees_excluding_funding}
-//@ bound=T=u8, DECIMALS=1: as c08_processor_add_pnl_conserves_u8 with order fees computed by the real fee code from a symbolic size, fee factor and receiver factor (no borrowing / liquidation fees)
+//@ bound=T=u8, DECIMALS=1: as c08_processor_add_pnl_conserves_u8 with order fees computed by the real fee code from a symbolic size, fee factor and receiver factor (no borrowing / liquidation fees). Excluded from exact conservation (and bounded instead): the rounding corner where output and collateral are exhausted, the unpaid rest is worth less than one secondary token and the nominal fee is credited anyway (excess < secondary_price/collateral_price tokens)
 //@ stubs=none; hook: verif_process
 #[kani::proof]
 fn c08_processor_fees_conserves_u8() {
-    let o = processor_step_conserves::<u8, 1>(StepKind::Fees);
+    let o = processor_step_conserves::<u8, 1>(StepKind::Fees, FeeCorner::Exclude);
     kani::cover!(o.receiver_credited, "receiver share credited");
     kani::cover!(o.fees_cleared, "fees cleared: everything to the pool");
+    kani::cover!(o.fee_corner, "rounding corner: nominal fee credited although less was paid");
+}
+
+//@ prop=C08 tier=quick kind=finding:fee_credit_rounding
+//@ enc=CollateralProcessor::process, Context::pay_for_fees_excluding_funding, State::do_pay_for_cost
+//@ bound=T=u8, DECIMALS=1: as c08_processor_fees_conserves_u8, restricted to the keyed region `fee_credit_rounding_region`
+//@ stubs=none; known-finding witness: assumes the rounding corner and asserts the strict clause (exact per-token conservation) inside it; expected to FAIL while the inherited GMX rounding is in place (pool and fee receiver are credited with the nominal fee although less was paid). Native replay: harness/perp/tests/c08_fee_credit_rounding.rs
+#[kani::proof]
+fn c08_processor_fees_conserves_strict_u8() {
+    let _ = processor_step_conserves::<u8, 1>(StepKind::Fees, FeeCorner::StrictInside);
 }
 
 //@ prop=C08 tier=quick kind=hold
@@ -300,7 +357,7 @@ fn c08_processor_fees_conserves_u8() {
 //@ stubs=none; hook: verif_process
 #[kani::proof]
 fn c08_processor_pay_impact_conserves_u8() {
-    let o = processor_step_conserves::<u8, 1>(StepKind::PayImpact);
+    let o = processor_step_conserves::<u8, 1>(StepKind::PayImpact, FeeCorner::Strict);
     kani::cover!(o.from_collateral, "impact taken from collateral");
     kani::cover!(o.from_secondary, "impact taken from the secondary output");
 }
@@ -311,7 +368,7 @@ fn c08_processor_pay_impact_conserves_u8() {
 //@ stubs=none; hook: verif_process
 #[kani::proof]
 fn c08_processor_impact_diff_conserves_u8() {
-    let o = processor_step_conserves::<u8, 1>(StepKind::Diff);
+    let o = processor_step_conserves::<u8, 1>(StepKind::Diff, FeeCorner::Strict);
     kani::cover!(o.claim_out, "impact diff claimable in the collateral token");
     kani::cover!(o.claim_sec, "impact diff claimable in the pnl token");
 }
